@@ -380,12 +380,58 @@ class NF:
                 v = self._builder(pat, v, rest, env, muts)
         bind_pattern(pat, v, env)
 
+    def _single_push(self, lid, body, env):
+        """The loop body consists of exactly one `v.push(e)`, possibly nested in `if` / `if let` guards (and `let`s that do
+        not touch v). Returns (nf(e), conditional) or None."""
+        body = H.strip(body)
+        conditional = False
+        cur_env = env
+        for _ in range(6):
+            k = body.get("k")
+            if k == "Block":
+                b = body["b"]
+                stmts = [x for x in b["stmts"]]
+                tail = b.get("tail")
+                lets = [x for x in stmts if x.get("k") == "Let"]
+                others = [x for x in stmts if x.get("k") in ("Semi", "Expr")] + ([{"k": "Expr", "e": tail}] if tail else [])
+                if len(others) != 1 or any(self._mutations(lid, [l]) for l in lets):
+                    return None
+                cur_env = cur_env.child()
+                for l in lets:
+                    self.bind_let(l, cur_env)
+                body = H.strip(others[0]["e"])
+                continue
+            if k == "If" and not body.get("else"):
+                c = H.strip(body["cond"])
+                if c.get("k") == "LetExpr":
+                    cur_env = cur_env.child()
+                    bind_pattern(c["pat"], self.nf(c["init"], cur_env), cur_env)
+                conditional = True
+                body = H.strip(body["then"])
+                continue
+            if k == "MethodCall" and body["name"] == "push" and self._mutations(lid, [body]):
+                return self.nf(body["args"][0], cur_env), conditional
+            return None
+        return None
+
     def _builder(self, pat, init, rest, env, muts):
         """list-builder idiom: `let mut v = vec![..]; for x in it { v.push(e) }` / straight `v.push(e)`."""
         lid = pat["id"]
         if init[0] == "call" and str(init[1]).endswith(("Vec::<T>::new", "vec::Vec::<T>::new")):
             init = ("list", ())
         if init[0] != "list":
+            # `let mut x = <init>; x.clone_from(&y);` at statement level: x == y afterwards
+            if len(muts) == 1 and muts[0].get("k") == "MethodCall" and muts[0]["name"] == "clone_from":
+                for st in rest:
+                    e = H.strip(st.get("e")) if st.get("k") in ("Semi", "Expr") else None
+                    if e is muts[0] or (e is not None and e.get("hid") == muts[0].get("hid") and e.get("k") == "MethodCall"):
+                        env2 = env.child()
+                        for st2 in rest:
+                            if st2 is st:
+                                break
+                            if st2.get("k") == "Let":
+                                self.bind_let(st2, env2)
+                        return self.nf(muts[0]["args"][0], env2)
             return ("unknown", f"mutated local {pat['name']}")
         items = list(init[1])
         accounted = 0
@@ -408,17 +454,13 @@ class NF:
                 accounted += 1
                 continue
             if e.get("k") == "For":
-                body = H.strip(e["body"])
-                inner = body["b"]["stmts"] if body.get("k") == "Block" else []
-                tail = body["b"].get("tail") if body.get("k") == "Block" else None
                 it = self.nf(e["iter"], env2)
                 env3 = env2.child()
                 bind_pattern(e["pat"], ("elem", it), env3)
-                ok = True
-                cand = [H.strip(x.get("e")) for x in inner if x.get("k") in ("Semi", "Expr")] + ([H.strip(tail)] if tail else [])
-                pushes = [c for c in cand if c.get("k") == "MethodCall" and c["name"] == "push" and self._mutations(lid, [c])]
-                if len(pushes) == len(m) == 1 and len(cand) == 1 and not [x for x in inner if x.get("k") == "Let"]:
-                    items.append(("star", it, self.nf(pushes[0]["args"][0], env3)))
+                found = self._single_push(lid, e["body"], env3)
+                if found is not None and len(m) == 1:
+                    arg_nf, conditional = found
+                    items.append(("star", it, arg_nf) if not conditional else ("star", it, arg_nf, "conditional"))
                     accounted += 1
                     continue
             return ("unknown", f"local {pat['name']} is mutated through an unrecognised construct")
@@ -459,7 +501,7 @@ class NF:
         args = e["args"]
         if name in IDENTITY_METHODS and not args:
             return recv
-        if name in ("map", "and_then", "is_some_and", "map_or", "map_or_else", "filter", "inspect", "find", "any",
+        if name in ("map", "and_then", "is_some_and", "is_ok_and", "map_or", "map_or_else", "filter", "inspect", "find", "any",
                     "position", "filter_map", "unwrap_or_else", "ok_or_else", "for_each"):
             if "Iterator" in (e.get("path") or "") or (recv[0] == "call" and str(recv[1]).endswith(("children", "split", "chars", "lines"))):
                 # iterator adapters keep the spine explicit
@@ -470,6 +512,8 @@ class NF:
                 return ("map", recv, self.closure_apply(args[0], [("payload", "Some", recv)], env))
             if name in ("is_some_and",):
                 return ("call", "is_some_and", (recv, self.closure_apply(args[0], [("payload", "Some", recv)], env)))
+            if name in ("is_ok_and",):
+                return ("call", "is_ok_and", (recv, self.closure_apply(args[0], [("payload", "Ok", recv)], env)))
             if name == "map_or":
                 return ("ifelse", ("islet", "Some(_)", recv), self.closure_apply(args[1], [("payload", "Some", recv)], env),
                         self.nf(args[0], env))
